@@ -22,10 +22,118 @@ func checkC01(c *Ctx) {
 	c.Rule("C01/R5", "unit metadata is written as 'Unit <unit as written> <key>=<value>'")
 	c.Rule("C01/R6", "in the known-key walk a step that shrinks the key order revisits the same slot, so no key is skipped")
 
+	c.Rule("C01/R7", "the writer's running model owns its bytes: no method of Writer stores into the Writer a slice, map or pointer that is rooted in its argument (values are copied), so a caller reusing its Result cannot change what the writer believes it has printed")
+	c.Rule("C01/R9", "the parser that reads the writer's %v floats back is the correctly rounding one: the conversion functions carried over from strconv agree with strconv region by region (same rule as C03/R5; shortest-decimal output round-trips only through a correctly rounding parser)")
+	c.Rule("C01/R8", "SetConfig marks the key internal: every write of a configuration value in SetConfig is to an entry whose File flag is set false on the same path (the entry comes from ensureConfig(key, false) or File is stored false)")
+
 	p := mustLoad(c, loadOpts{}, "./benchfmt")
 	c01Writer(c, p)
 	c01Verbs(c, p)
+	c01Owns(c, p)
+	c01SetConfig(c, p)
+	c03Port(c, "C01/R9")
 }
+
+func c01Owns(c *Ctx, p *Prog) {
+	const R = "C01/R7"
+	var fns []*ssa.Function
+	for _, fn := range p.Funcs("benchfmt") {
+		if fn.Signature.Recv() != nil && recvName(fn.Signature.Recv().Type()) == "Writer" {
+			fns = append(fns, fn)
+		}
+	}
+	viol, n := retained(fns, 0)
+	for i, v := range viol {
+		c.Bad(R, fmt.Sprintf("%s:retains#%d", fnName(v.Fn), i+1), p.pos(v.Instr.Pos()), v.String()+": the writer's model of what a reader of its output has seen now shares storage with the caller's Result; a Reader reuses those bytes for the next line, so later changes to the key are mis-detected")
+	}
+	if len(viol) == 0 {
+		c.OK(R, "writer:owns-model", "", fmt.Sprintf("%d stores into the Writer in %d methods keep only copies, constants or the Writer's own storage", n, len(fns)))
+	}
+	c.Floor(R, "stores into the Writer's state", n, 5)
+}
+
+func c01SetConfig(c *Ctx, p *Prog) {
+	const R = "C01/R8"
+	fn := p.Method("benchfmt", "Result", "SetConfig")
+	valueF, fileF := p.Field("benchfmt", "Config", "Value"), p.Field("benchfmt", "Config", "File")
+	if fn == nil || valueF == nil || fileF == nil {
+		c.Undecided(R, "anchor:SetConfig", "", "Result.SetConfig or Config.Value/File not found")
+		return
+	}
+	n := 0
+	eachInstr(fn, func(b *ssa.BasicBlock, in ssa.Instruction) {
+		st, ok := in.(*ssa.Store)
+		if !ok {
+			return
+		}
+		f, base := fieldOfAddr(st.Addr)
+		if f != valueF {
+			return
+		}
+		n++
+		site := p.pos(st.Pos())
+		okInternal := false
+		// the entry comes from ensureConfig(key, false)
+		if call, ok := base.(*ssa.Call); ok {
+			if co := calleeObj(&call.Call); co != nil && objIs(co, bfPkg, "Result", "ensureConfig") {
+				args := callArgs(&call.Call)
+				if k, ok := args[len(args)-1].(*ssa.Const); ok && k.Value != nil && k.Value.String() == "false" {
+					okInternal = true
+				}
+			}
+		}
+		// or File is stored false through the same entry in a block that dominates this store or that it dominates
+		eachInstr(fn, func(b2 *ssa.BasicBlock, in2 ssa.Instruction) {
+			st2, ok := in2.(*ssa.Store)
+			if !ok {
+				return
+			}
+			f2, base2 := fieldOfAddr(st2.Addr)
+			if f2 != fileF || !sameValue(base, base2) {
+				return
+			}
+			if k, ok := st2.Val.(*ssa.Const); ok && k.Value != nil && k.Value.String() == "false" && (b2.Dominates(b) || b.Dominates(b2)) {
+				okInternal = true
+			}
+		})
+		c.Check(okInternal, R, fmt.Sprintf("SetConfig:value-store#%d", n), site, "the entry written is marked internal", "SetConfig writes a value into an entry without marking it internal: overriding a key that came from the file leaves File=true, so the writer prints it as file configuration and it comes back as file configuration when read")
+	})
+	c.Floor(R, "value stores in SetConfig", n, 1)
+	// ensureConfig stores its file argument on every path that returns an entry
+	ens := p.Method("benchfmt", "Result", "ensureConfig")
+	if ens == nil {
+		c.Undecided(R, "anchor:ensureConfig", "", "not found")
+		return
+	}
+	fileParam := ens.Params[len(ens.Params)-1]
+	for i, b := range ens.Blocks {
+		ret, ok := b.Instrs[len(b.Instrs)-1].(*ssa.Return)
+		if !ok {
+			continue
+		}
+		rv := retVal(ret, 0)
+		found := false
+		eachInstr(ens, func(b2 *ssa.BasicBlock, in2 ssa.Instruction) {
+			if !b2.Dominates(b) {
+				return
+			}
+			switch x := in2.(type) {
+			case *ssa.Store:
+				if f2, base2 := fieldOfAddr(x.Addr); f2 == fileF && sameValue(base2, rv) && x.Val == fileParam {
+					found = true
+				}
+				// whole-element construction Config{key, nil, file} stored or appended
+				if al, _ := allocRootOfAddr(x.Addr); al != nil {
+					if f2, _ := fieldOfAddr(x.Addr); f2 == fileF && x.Val == fileParam {
+						found = true
+					}
+				}
+			}
+		})
+		c.Check(found, R, fmt.Sprintf("ensureConfig:return#%d", i), p.pos(ret.Pos()), "the returned entry's File is set from the argument", "ensureConfig returns an entry without setting its File flag from the argument on this path: a reused slot keeps the previous key's flag")
+	}
+}
+
 
 const bfPkg = modPath + "/benchfmt"
 
